@@ -78,6 +78,17 @@ def _scenarios(tier, fams, rnd):
                            "version": version, "c": fams[fam], "k": k, "delta": limbs(delta),
                            "tau": limbs(tau), "sg": limbs(sg), "sh": limbs(sh),
                            "stream": [limbs(x) for x in stream]})
+    # a draw whose value is ZERO is a mask like any other: drawn once, used as it is
+    # (the differential pairs it with a non-zero increment, so the commitment must move by
+    # exactly [delta]; a prover that re-samples a zero draw consumes a 15th draw)
+    for k in ([1, 2, 9, 12, 14] if tier == "quick" else list(range(1, 15))):
+        for fam in (("arith",) if tier == "quick" else ("tiny", "arith")):
+            tau, sg, sh = srs[k % len(srs)]
+            stream = [rnd.randrange(1, R) for _ in range(14)]
+            stream[k - 1] = 0
+            sc.append({"id": len(sc), "kind": "diff", "family": fam, "salt": 0, "version": 3, "c": fams[fam],
+                       "k": k, "delta": limbs(rnd.randrange(2, R)), "tau": limbs(tau), "sg": limbs(sg),
+                       "sh": limbs(sh), "stream": [limbs(x) for x in stream]})
     for i, (fam, version) in enumerate(fresh):
         if fam not in fams:
             continue
